@@ -124,6 +124,8 @@ def run(prog, rep):
                                                                                   if g == SPIN else "the running thread's own reference is never registered for release at thread exit"), ln)
     from plint.wiring import shutdown_resets
     nrs, brs = shutdown_resets(u.fn("p_uthread_shutdown"))
+    if nrs < 2 and not brs:
+        raise AnalysisBroken("p_uthread_shutdown: fewer than two releases of module globals found (%d)" % nrs)
     rep.ob("C05.1", u.fn("p_uthread_shutdown"), "shutdown:reset", nrs >= 2 and not brs, "p_uthread_shutdown stores NULL into each global it releases (the next init creates them again)" if (nrs >= 2 and not brs) else
            ("line %d: %s is released and keeps pointing at the destroyed object: the next init creates nothing" % (brs[0][1], brs[0][0]) if brs else "fewer than two releases found in p_uthread_shutdown"),
            brs[0][1] if brs else u.fn("p_uthread_shutdown").loc[0])
